@@ -193,10 +193,20 @@ def run_one(seed: int, tier: str) -> dict[str, Any]:
             ctx = ref["commit_ctx"][ref["client_commits"] + k - 1]
             if any(x in ctx for x in ("|StartStage|", "|JumpToStage|")) and ch.flip("pt.struct", 0.5):
                 chosen.add(i)
-        for _ in range(12):
+        for _ in range(10):
             chosen.add(ch.pick("pt.rand", n))
+        if ref["steps"] > 300:      # very long reference runs (wait-retry loops): keep the quick tier quick
+            chosen = set(sorted(chosen)[::3])
         pts = [pts[i] for i in sorted(chosen)]
+    import time as _t
+
+    from sim import seams as _seams
+
+    _dl = float(__import__("os").environ.get("VERIF_DEADLINE", "0") or 0)
     for (k, when) in pts:
+        if _dl and _seams.REAL.time() > _dl:
+            out["stats"]["sweeps_cut_by_deadline"] = 1
+            break
         second = None
         if tier == "thorough" and ch.flip("second", 0.25):
             second = [[ch.pick("second.off", 12), ch.choice("second.when", ["before", "after"])]]
